@@ -114,6 +114,24 @@ def run(pid):
             rep.violation("pinned witness of %s fails with an unlisted symptom %s" % (w["id"], byw[0]), {"engine": "conc", "scenario": sc, "rules": byw[0]})
         else:
             vlib.log("known finding %s no longer reproduces on its witness" % w["id"])
+    # further witnesses of a finding with their OWN expected symptoms: the same window reached through another call
+    # (a change that makes the recorded defect worse - another symptom in the same window - is reported)
+    for w in vlib.known_findings().get("findings", []):
+        if w.get("property") != pid:
+            continue
+        for path in w.get("more_witnesses", []):
+            wo = json.load(open(os.path.join(vlib.VERIF, path)))
+            byw = conceng.judge(rep, [wo["scenario"]], "kf2")
+            got = sorted(r for r in byw.get(0, []) if not str(r).startswith("window:"))
+            if got and set(got) <= set(wo.get("expect", [])):
+                # (reported with the finding's main witness above; one KNOWN-FINDING line per finding)
+                vlib.log("known finding %s: further witness %s still fails with rules %s" % (w["id"], path, ",".join(got)))
+                rep.cov["further_witnesses_of_known_findings_still_failing_as_listed"] = rep.cov.get("further_witnesses_of_known_findings_still_failing_as_listed", 0) + 1
+            elif got:
+                rep.violation("pinned witness %s of %s fails with an unlisted symptom %s (listed for this witness: %s)" % (path, w["id"], got, wo.get("expect")),
+                              {"engine": "conc", "scenario": wo["scenario"], "rules": got})
+            else:
+                vlib.log("known finding %s no longer reproduces on its witness %s" % (w["id"], path))
     for w, sc in witnesses(pid, "fixed"):
         byw = conceng.judge(rep, [sc], "fx")
         for t, rules in byw.items():
